@@ -25,6 +25,7 @@ type e2eBudgetCase struct {
 	Per    uint64   `json:"per"`
 	Len    int      `json:"len"`
 	Reps   int      `json:"reps,omitempty"` // sequential requests on the same pair of instances (default 1), each over a fresh chain
+	Local  int      `json:"local,omitempty"` // the requestor already holds the first Local blocks of each chain (its request then asks the responder to skip them); < Len
 	Tags   []string `json:"tags,omitempty"`
 }
 
@@ -75,8 +76,11 @@ func runE2EBudget(c e2eBudgetCase) (out []e2eBudgetObs, err error) {
 	// behave as the first one does
 	for rep := 0; rep < reps; rep++ {
 		d := dag.ChainSalt(c.Len, int64(rep))
-		for _, b := range d.Blocks {
+		for i, b := range d.Blocks {
 			w.Nodes[1].Store.Put(dagLink(b), b.Data)
+			if i < c.Local {
+				w.Nodes[0].Store.Put(dagLink(b), b.Data)
+			}
 		}
 		atomic.StoreUint64(&respBlocks, 0)
 		atomic.StoreUint64(&reqBlocks, 0)
@@ -122,7 +126,7 @@ Definition mk_ebcase := Build_ebcase.
 func driveE2EBudget(c *ctx) error {
 	w := cw.New(c.out, e2eBudgetHeader, "ebcase", []cw.Check{{Name: "MON07E", Fn: "ebcase_ok"}})
 	w.Stats.Rule = "two real GraphSync instances over the libp2p mocknet; chain DAGs of 1..6 blocks on the responder; every combination of global and per-request " +
-		"link budget in {0..4} on the requestor and on the responder; 1-3 sequential requests (fresh chains) per pair of instances; observed = blocks loaded by the enforcing peer and whether the request failed; " +
+		"link budget in {0..4} on the requestor and on the responder; 1-3 sequential requests (fresh chains) per pair of instances; responder-side cases also with the requestor holding the first 1-2 blocks (so the request carries do-not-send-first-blocks); observed = blocks loaded by the enforcing peer and whether the request failed; " +
 		"non-trivial = both budgets non-zero; distinct = distinct terms"
 	run := func(ec e2eBudgetCase, tag string) error {
 		obs, err := runE2EBudget(ec)
@@ -175,6 +179,14 @@ func driveE2EBudget(c *ctx) error {
 				for _, l := range ls {
 					if err := run(e2eBudgetCase{Side: side, Global: uint64(g), Per: uint64(p), Len: l, Reps: 1 + (g+p+l)%3}, "grid"); err != nil {
 						return err
+					}
+					// the responder's budget counts the blocks IT loads, also those the request tells it not to send:
+					// the requestor holds a prefix locally, so its request carries do-not-send-first-blocks
+					if side == "responder" && l >= 3 && (g > 0 || p > 0) {
+						k := 1 + (g+p)%2
+						if err := run(e2eBudgetCase{Side: side, Global: uint64(g), Per: uint64(p), Len: l, Reps: 1, Local: k}, "grid-local-prefix"); err != nil {
+							return err
+						}
 					}
 				}
 			}
